@@ -168,7 +168,7 @@ func runC02(o Opts) error {
 					}
 				case "types.DateTime", "*types.DateTime":
 					for _, p := range datePatterns {
-						for _, t := range [][]byte{{0, 0, 0}, {0x23, 0x59, 0x59}, {0x24, 0, 0}, {0x12, 0x60, 0}, {0x12, 0, 0x60}, {0x1a, 0, 0}, {0x12, 0x34, 0x56}} {
+						for _, t := range [][]byte{{0, 0, 0}, {0x23, 0x59, 0x59}, {0x24, 0, 0}, {0x12, 0x60, 0}, {0x12, 0, 0x60}, {0x1a, 0, 0}, {0x12, 0x34, 0x56}, {0x23, 0x59, 0x60}} {
 							if thorough || r.Intn(4) == 0 {
 								mut(append(append([]byte{}, p...), t...), "datetime-patterns")
 							}
@@ -189,7 +189,7 @@ func runC02(o Opts) error {
 						mut(p, "sysdate-patterns")
 					}
 				case "types.SystemTime":
-					for _, p := range [][]byte{{0, 0, 0}, {0x23, 0x59, 0x59}, {0x24, 0, 0}, {0x23, 0x60, 0}, {0x23, 0, 0x60}, {0xa0, 0, 0}, {0x12, 0x3b, 0}} {
+					for _, p := range [][]byte{{0, 0, 0}, {0x23, 0x59, 0x59}, {0x24, 0, 0}, {0x23, 0x60, 0}, {0x23, 0, 0x60}, {0xa0, 0, 0}, {0x12, 0x3b, 0}, {0x23, 0x59, 0x60}, {0x00, 0x00, 0x60}, {0x23, 0x59, 0x61}, {0x12, 0x59, 0x60}, {0x23, 0x59, 0x99}} {
 						mut(p, "systime-patterns")
 					}
 				case "uint32", "types.PIN", "uint16", "types.Version", "net.IP", "netip.AddrPort", "types.MacAddress":
